@@ -164,6 +164,13 @@ func (p cfgPath) Has(cfg *Config, opt *options) (bool, Error) {
 func (p cfgPath) GetValue(cfg *Config, opt *options) (value, Error) {
 	fields := p.fields
 
+	// a step that finds nothing is reported with the path of the value the walk stands
+	// on (cur) and the name that is missing there
+	missing := func(cur value, f field) Error {
+		ctx := cur.Context()
+		return raisePathErr(ErrMissing, cur.meta(), "", ctx.pathOf(f.String(), "."))
+	}
+
 	cur := value(cfgSub{cfg})
 	for ; len(fields) > 1; fields = fields[1:] {
 		field := fields[0]
@@ -173,7 +180,7 @@ func (p cfgPath) GetValue(cfg *Config, opt *options) (value, Error) {
 		}
 
 		if next == nil {
-			return nil, raiseMissing(cfg, field.String())
+			return nil, missing(cur, field)
 		}
 
 		cur = next
@@ -182,7 +189,9 @@ func (p cfgPath) GetValue(cfg *Config, opt *options) (value, Error) {
 	field := fields[0]
 	v, err := getScoped(opt, field, cur)
 	if err != nil {
-		return nil, raiseMissing(cfg, field.String())
+		// the last step runs into a value that holds no settings: the setting asked
+		// for is missing below that value
+		return nil, missing(cur, field)
 	}
 	return v, nil
 }
